@@ -97,7 +97,12 @@ def generic(ctx: Ctx, d, name, strict=True):
         n = ctx.int_const(name + "_n", 0, LEN_LIMIT)
         item_d = d[1]
         seq = SSeq(n, name, lambda i, _c=ctx, _d=item_d, _n=name: generic(_c, _d, f"{_n}[{i}]", strict))
+        seq.item_desc = item_d
         return SOpt(ctx.bool_const(name + "?none"), seq)
+    if k == "absitem":
+        c = z3.Const(name, opaque.U)
+        ctx.inputs[name] = c
+        return SOpaque(c, "absitem")
     if k == "ent":
         from spec import schema_spec
         return schema_spec.generic_entity(ctx, d[1], name, strict)
